@@ -41,6 +41,24 @@ type Case struct {
 	RType   string     `json:"rtype"`
 	NOrder  int        `json:"norder"`
 	Grid    bool       `json:"grid"` // place the vertices on a coarse grid (rings share latitudes / longitudes exactly)
+	Doc     *DocSpec   `json:"doc"`  // the relation is observed inside a document of several relations sharing ways
+}
+
+// DocSpec: a document of 2-3 relations sharing ways; the case observes relation K (1-based) of Rels.
+type RelSpec struct {
+	G       []RingDesc `json:"g"`
+	Members []Member   `json:"members"`
+	Masks   [][]bool   `json:"masks"`
+	RType   string     `json:"rtype"`
+}
+
+type DocSpec struct {
+	Spec     string    `json:"spec"`
+	Kind     string    `json:"kind"` // adjacent: A,B | island: A,C | both: A,B,C
+	S        int       `json:"s"`    // edges of the border shared by A and B
+	K        int       `json:"k"`
+	Rels     []RelSpec `json:"rels"`
+	RelOrder []int     `json:"relorder"`
 }
 
 type Run struct {
@@ -448,11 +466,296 @@ func doCase(c *Case, seed uint64, line []byte) Got {
 	return got
 }
 
+// ---- documents: several relations sharing ways ----
+// Symbol map of a document (see MultipolygonDocs.tla): A lies west of the border, B east of it. The border points
+// P_0 (south) .. P_s (north) are A's vertices 1..s+1 and B's vertices s+1..1; the other vertices of A lie on the
+// western half circle (counter-clockwise from north to south), those of B on the eastern one (south to north).
+// A's hole (ring 2) is a small ring well inside A; C's outer ring is that ring, vertex by vertex.
+// Every relation gets its own symbol <-> point map; glued symbols are one point and one node.
+func placeDoc(c *Case, seed uint64, h uint64) []*layout {
+	d := c.Doc
+	x := seed*0x9E3779B97F4A7C15 ^ h
+	next := func() float64 {
+		x += 0x9E3779B97F4A7C15
+		z := x
+		z = (z ^ (z >> 30)) * 0xBF58476D1CE4E5B9
+		z = (z ^ (z >> 27)) * 0x94D049BB133111EB
+		z ^= z >> 31
+		return float64(z>>11) / float64(uint64(1)<<53)
+	}
+	p := profiles[int(next()*float64(len(profiles)))%len(profiles)]
+	R := p.radius
+	ids := map[orb.Point]osm.NodeID{}
+	lays := make([]*layout, len(d.Rels))
+	for i := range lays {
+		lays[i] = &layout{pt: map[int]orb.Point{}, sym: map[orb.Point]int{}, id: map[int]osm.NodeID{}}
+	}
+	put := func(rel, sym int, pt orb.Point) {
+		if pt[0] == 0 && pt[1] == 0 {
+			pt[0] = 1e-9
+		}
+		if _, ok := ids[pt]; !ok {
+			ids[pt] = osm.NodeID(p.idBase + int64(len(ids)) + 1)
+		}
+		l := lays[rel]
+		if _, dup := l.sym[pt]; dup {
+			vio.Must(fmt.Errorf("two symbols of one relation on one coordinate"), "doc layout")
+		}
+		l.pt[sym], l.sym[pt], l.id[sym] = pt, sym, ids[pt]
+	}
+	iA, iB, iC := 0, -1, -1
+	switch d.Kind {
+	case "adjacent":
+		iB = 1
+	case "island":
+		iC = 1
+	case "both":
+		iB, iC = 1, 2
+	default:
+		vio.Must(fmt.Errorf("kind %q", d.Kind), "doc")
+	}
+	s := d.S
+	border := make([]orb.Point, s+1)
+	zig := 0.08 * R
+	if next() < 0.5 {
+		zig = -zig
+	}
+	for t := 0; t <= s; t++ {
+		bx := p.lon0
+		if t > 0 && t < s {
+			bx += zig
+			zig = -zig
+		}
+		border[t] = orb.Point{bx, p.lat0 - R + 2*R*float64(t)/float64(maxInt(s, 1))}
+	}
+	gA := d.Rels[iA].G
+	nA := gA[0].N
+	if s > 0 {
+		for t := 0; t <= s; t++ {
+			put(iA, 100+t+1, border[t])
+		}
+		mA := nA - (s + 1)
+		for j := 1; j <= mA; j++ {
+			th := math.Pi/2 + math.Pi*float64(j)/float64(mA+1)
+			put(iA, 100+s+1+j, orb.Point{p.lon0 + R*math.Cos(th), p.lat0 + R*math.Sin(th)})
+		}
+	} else { // no border: a ring around the place where the hole goes
+		th0 := next() * 2 * math.Pi
+		for i := 1; i <= nA; i++ {
+			th := th0 + 2*math.Pi*float64(i-1)/float64(nA)
+			put(iA, 100+i, orb.Point{p.lon0 - 0.42*R + 0.55*R*math.Cos(th), p.lat0 + 0.55*R*math.Sin(th)})
+		}
+	}
+	if len(gA) > 2 {
+		vio.Must(fmt.Errorf("A with %d rings", len(gA)), "doc")
+	}
+	if len(gA) == 2 {
+		nh := gA[1].N
+		th0 := next() * 2 * math.Pi
+		for i := 1; i <= nh; i++ {
+			th := th0 + 2*math.Pi*float64(i-1)/float64(nh)
+			pt := orb.Point{p.lon0 - 0.42*R + 0.12*R*math.Cos(th), p.lat0 + 0.12*R*math.Sin(th)}
+			put(iA, 200+i, pt)
+			if iC >= 0 {
+				put(iC, 100+i, pt)
+			}
+		}
+	}
+	if iB >= 0 {
+		nB := d.Rels[iB].G[0].N
+		for t := 0; t <= s; t++ {
+			put(iB, 100+t+1, border[s-t])
+		}
+		mB := nB - (s + 1)
+		for j := 1; j <= mB; j++ {
+			th := 1.5*math.Pi + math.Pi*float64(j)/float64(mB+1)
+			put(iB, 100+s+1+j, orb.Point{p.lon0 + R*math.Cos(th), p.lat0 + R*math.Sin(th)})
+		}
+	}
+	return lays
+}
+
+func maxInt(a, b int) int {
+	if a > b {
+		return a
+	}
+	return b
+}
+
+const relIDBase = 70
+
+// buildDoc renders the whole document; m is the 1-based mask index (nil masks when m == 0).
+func buildDoc(c *Case, lays []*layout, src string, m int) *osm.OSM {
+	d := c.Doc
+	o := &osm.OSM{}
+	wayOf := map[string]osm.WayID{}
+	rels := make([]*osm.Relation, len(d.Rels))
+	nodes := map[osm.NodeID]orb.Point{}
+	for ri, rs := range d.Rels {
+		l := lays[ri]
+		rel := &osm.Relation{ID: osm.RelationID(relIDBase + ri), Version: 1, Visible: true, Timestamp: t0.Add(time.Hour),
+			Tags: osm.Tags{{Key: "type", Value: rs.RType}, {Key: "name", Value: fmt.Sprintf("area %d", ri)}}}
+		var mask []bool
+		if m > 0 {
+			mi := m
+			if mi > len(rs.Masks) {
+				mi = len(rs.Masks)
+			}
+			mask = rs.Masks[mi-1]
+		}
+		for i, mem := range rs.Members {
+			key := ""
+			for _, s := range mem.Nodes {
+				key += fmt.Sprintf("%d,", l.id[s])
+				nodes[l.id[s]] = l.pt[s]
+			}
+			id, ok := wayOf[key]
+			if !ok { // one way per distinct node sequence: a way shared by two relations exists once
+				id = osm.WayID(500 + len(wayOf))
+				wayOf[key] = id
+				w := &osm.Way{ID: id, Version: 1, Visible: true, Timestamp: t0}
+				for _, s := range mem.Nodes {
+					wn := osm.WayNode{ID: l.id[s]}
+					if src == "waynodes" {
+						wn.Version, wn.Lon, wn.Lat = 1, l.pt[s][0], l.pt[s][1]
+					}
+					w.Nodes = append(w.Nodes, wn)
+				}
+				o.Ways = append(o.Ways, w)
+			}
+			om := osm.Member{Type: osm.TypeWay, Ref: int64(id), Role: mem.Role}
+			if mask != nil && mask[i] {
+				om.Orientation = orb.Orientation(mem.Dir)
+			}
+			rel.Members = append(rel.Members, om)
+		}
+		rels[ri] = rel
+	}
+	for _, k := range d.RelOrder {
+		o.Relations = append(o.Relations, rels[k-1])
+	}
+	if src == "nodes" {
+		var idl []int64
+		for id := range nodes {
+			idl = append(idl, int64(id))
+		}
+		sort.Slice(idl, func(a, b int) bool { return idl[a] < idl[b] })
+		if c.NOrder == 1 {
+			sort.Slice(idl, func(a, b int) bool { return idl[a] > idl[b] })
+		}
+		for _, id := range idl {
+			pt := nodes[osm.NodeID(id)]
+			o.Nodes = append(o.Nodes, &osm.Node{ID: osm.NodeID(id), Version: 1, Visible: true, Lon: pt[0], Lat: pt[1], Timestamp: t0})
+		}
+	}
+	if c.NOrder == 2 {
+		for a, b := 0, len(o.Ways)-1; a < b; a, b = a+1, b-1 {
+			o.Ways[a], o.Ways[b] = o.Ways[b], o.Ways[a]
+		}
+	}
+	return o
+}
+
+// convertDoc converts the document and records the feature(s) of relation relID.
+func convertDoc(o *osm.OSM, l *layout, relID int, src string, m int) (run Run) {
+	run = Run{Src: src, M: m, Polys: [][][]int{}}
+	defer func() {
+		if r := recover(); r != nil {
+			run.Crash = true
+			run.Err = fmt.Sprint(r)
+		}
+	}()
+	fc, err := osmgeojson.Convert(o)
+	if err != nil {
+		run.Err = err.Error()
+		return
+	}
+	run.NFeat = len(fc.Features)
+	for _, f := range fc.Features {
+		if t, _ := f.Properties["type"].(string); t != "relation" {
+			continue
+		}
+		if id, _ := f.Properties["id"].(int); id != relID {
+			continue
+		}
+		var polys []orb.Polygon
+		switch g := f.Geometry.(type) {
+		case orb.Polygon:
+			polys = []orb.Polygon{g}
+		case orb.MultiPolygon:
+			polys = g
+		default:
+			continue
+		}
+		run.NPoly++
+		if run.NPoly == 1 {
+			for _, p := range polys {
+				run.Polys = append(run.Polys, l.poly(p))
+			}
+			run.Tainted = tainted(f)
+		}
+	}
+	return
+}
+
+func doDoc(c *Case, seed uint64, line []byte) Got {
+	d := c.Doc
+	// the layout depends on the document, not on the observed relation or the relation order
+	hh := fnv.New64a()
+	dj, _ := json.Marshal(d.Rels)
+	hh.Write(dj)
+	lays := placeDoc(c, seed, hh.Sum64())
+	k := d.K - 1
+	l := lays[k]
+	relID := relIDBase + k
+	if os.Getenv("C16_DUMP") != "" {
+		for ri, ll := range lays {
+			for s, pt := range ll.pt {
+				fmt.Fprintf(os.Stderr, "rel %d sym %d id %d lon %.17g lat %.17g\n", ri+1, s, ll.id[s], pt[0], pt[1])
+			}
+		}
+	}
+	got := Got{Runs: []Run{}, Annot: []int{}}
+	for _, src := range []string{"nodes", "waynodes"} {
+		for mi := range c.Masks {
+			if src == "waynodes" && mi >= 2 {
+				continue
+			}
+			got.Runs = append(got.Runs, convertDoc(buildDoc(c, lays, src, mi+1), l, relID, src, mi+1))
+		}
+	}
+	// annotate every relation of the document (each is its own history), then convert the annotated document
+	o := buildDoc(c, lays, "waynodes", 0)
+	for _, rel := range o.Relations {
+		func() {
+			defer func() {
+				if r := recover(); r != nil && int(rel.ID) == relID {
+					got.AnnErr = "crash: " + fmt.Sprint(r)
+				}
+			}()
+			ds := (&osm.OSM{Ways: o.Ways}).HistoryDatasource()
+			if err := annotate.Relations(context.Background(), osm.Relations{rel}, ds, annotate.Threshold(30*time.Minute)); err != nil && int(rel.ID) == relID {
+				got.AnnErr = err.Error()
+			}
+		}()
+		if int(rel.ID) == relID {
+			for _, m := range rel.Members {
+				got.Annot = append(got.Annot, int(m.Orientation))
+			}
+		}
+	}
+	got.Pipe = convertDoc(o, l, relID, "waynodes", 0)
+	return got
+}
+
 func main() {
 	seed, _ := strconv.ParseUint(os.Getenv("VERIF_SEED"), 10, 64)
 	vio.Map(vio.ReadLines(), 0, func(i int, line []byte) interface{} {
 		var c Case
 		vio.Must(json.Unmarshal(line, &c), "case")
+		if c.Doc != nil {
+			return Rec{Case: line, Got: doDoc(&c, seed, line)}
+		}
 		return Rec{Case: line, Got: doCase(&c, seed, line)}
 	})
 }
